@@ -469,7 +469,7 @@ fn c10_packed(rep: &mut Report, ctx: &Ctx) {
 }
 
 pub fn run_c10(ctx: &Ctx, rep: &mut Report) {
-    let n = ctx.tier.pick(6, 900, 40_000);
+    let n = ctx.tier.pick(6, 900, 100_000);
     let lens = gen::vec_lengths(false);
     let mut root = Rng::new(ctx.seed).fork(0xC10 + ctx.shard as u64);
     for li in 0..n {
@@ -627,7 +627,7 @@ pub fn c11_check_one(
 }
 
 pub fn run_c11(ctx: &Ctx, rep: &mut Report) {
-    let n = ctx.tier.pick(8, 1500, 60_000);
+    let n = ctx.tier.pick(8, 1500, 150_000);
     let mut root = Rng::new(ctx.seed).fork(0xC11 + ctx.shard as u64);
     for li in 0..n {
         let mut rng = root.fork(li as u64);
@@ -973,7 +973,7 @@ pub fn gen_repl_case(rng: &mut Rng) -> ReplCase {
 }
 
 pub fn run_c12(ctx: &Ctx, rep: &mut Report) {
-    let n = ctx.tier.pick(40, 20_000, 800_000);
+    let n = ctx.tier.pick(40, 20_000, 4_000_000);
     let mut root = Rng::new(ctx.seed).fork(0xC12 + ctx.shard as u64);
     for i in 0..n {
         let mut rng = root.fork(i as u64);
